@@ -810,10 +810,12 @@ func (p *pp) printArg(arg interface{}, verb rune) {
 		}
 		p.printValue(f, verb, 0)
 	case m.RedactableString:
+		p.ignoredVerb(verb)
 		defer p.startPreRedactable().restore()
 		p.buf.WriteString(string(f))
 		return
 	case m.RedactableBytes:
+		p.ignoredVerb(verb)
 		defer p.startPreRedactable().restore()
 		p.buf.Write([]byte(f))
 		return
